@@ -8,7 +8,7 @@ from .. import pb, mesgen
 NAMING = True
 ID = "C02"
 ORACLE = "Oracle.C02"
-PROPS = "Props/C02.v"
+PROPS = ["Props/C02.v", "Props/TieGen.v"]
 LEVEL = "proof"
 SHARD = 60
 CODES = {
